@@ -19,7 +19,8 @@ def upd_calls(m, slot):
 
 def build(case, i):
     m = case["m"]
-    name, help_ = "mac_%d_x" % i, "help %d" % i
+    # help texts with blanks at either end and inner line breaks are help texts like any other
+    name, help_ = "mac_%d_x" % i, ["help %d", " help %d", "help %d \n", "\thelp\n%d  "][i % 4] % i
     const = [list(p) for p in case["const"]]
     labels = list(case["labels"])
     buckets = [float("inf") if x == 0 else x * 0.5 for x in case["buckets"]]
@@ -128,6 +129,9 @@ def run(ctx):
                 if const:
                     c["const"] = const
                 ojobs.append({"id": 10 ** 5 + len(ojobs), "calls": [c], "expect_h": {"name": "n", "help": "h", "const": sorted(map(list, const)), "buckets": b}})
+    for hp in (" h", "h ", "h\n", " "):
+        ojobs.append({"id": 10 ** 5 + len(ojobs), "calls": [{"op": "opts_macro", "name": "n", "help": hp, "tc": False}], "expect": {"name": "n", "help": hp, "ns": "", "sub": "", "const": [], "var": []}})
+        ojobs.append({"id": 10 ** 5 + len(ojobs), "calls": [{"op": "histogram_opts_macro", "name": "n", "help": hp, "tc": False}], "expect_h": {"name": "n", "help": hp, "const": [], "buckets": []}})
     res = run_api(ctx, exe, vary_builder_order(jobs, ctx.seed) + [{"id": j["id"], "calls": j["calls"]} for j in ojobs], "macro", nproc=12)
     nok = 0
     for j, (marks, name), c in zip(jobs, meta, cases):
@@ -204,6 +208,23 @@ def run(ctx):
                 nstatic += 1
     nok += nstatic
     ctx.cov["static_register_macro_forms_conforming"] = nstatic
+    # "registers in the default registry when none is named" — also when the macro calls of several threads are the process's very
+    # first use of the default registry: fresh processes, 8 threads released together
+    nfirst = 0
+    for run_i in range(40 if ctx.quick else 600):
+        p = sh([os.path.join(os.path.dirname(exe), "vh_af"), "firstuse", "8"], timeout=120, check=False)
+        try:
+            seen = json.loads(p.stdout.strip().splitlines()[-1])["ok"]
+        except Exception:
+            ctx.violation("first-use:crashed", "a fresh process whose threads register through the macros at once ended with status %d: %s" % (p.returncode, p.stdout[-300:]), {"calls": [], "case": {"firstuse": True}})
+            break
+        bad = [x for x in seen if not x["ok"] or x["gathered"] != x["i"] + 1]
+        if bad:
+            ctx.violation("first-use:not-in-default-registry", "8 threads of a fresh process call register_*! at the same moment; afterwards prometheus::gather() shows (thread, macro returned Ok, gathered value) %s — expected value i+1 for every thread" % [(x["i"], x["ok"], x["gathered"]) for x in bad][:4], {"calls": [], "case": {"firstuse": True}})
+            break
+        nfirst += 1
+    nok += nfirst
+    ctx.cov["fresh_process_first_use_runs_conforming"] = nfirst
     ctx.cov.update({"traces_validated_against_impl": nok, "macro_cases": len(cases), "option_macro_cases": len(ojobs), "conforming": nok,
                     "arms_covered": len({(c["m"], c["form"], c["tc"], c["target"] == "default") for c in cases}),
                     "samples": [cases[0], cases[len(cases) // 2]], "exhaustive": True,
@@ -216,6 +237,12 @@ def run(ctx):
 def replay(path):
     d = json.load(open(path))
     rp = d["replay"]
+    if rp.get("case", {}).get("firstuse"):
+        exe = build_harness()
+        for _ in range(40):
+            print(sh([os.path.join(os.path.dirname(exe), "vh_af"), "firstuse", "8"], timeout=120, check=False).stdout.strip()[-400:])
+        print("verdict: every thread's metric must be gathered with value i+1 in every run above")
+        return 1
     if rp.get("case", {}).get("static"):
         exe = build_harness()
         print(sh([os.path.join(os.path.dirname(exe), "vh_af"), "regstatic"], timeout=300, check=False).stdout[-4000:])
